@@ -12,7 +12,7 @@ var logic string
 func Family() *rx.Family {
 	return &rx.Family{
 		Name: "s6", Path: "gno.land/r/verif/s6", Logic: logic,
-		Ops: "abcdfgheijkl",
+		Ops: "acdebfghijkl",
 		Desc: map[byte]string{'a': "inc()", 'b': "peek()", 'c': "g=inc", 'd': "g()", 'e': "inc,peek=mk(fresh)", 'f': "fns[1]() (loop var)", 'g': "fns[0]=inc",
 			'h': "fns[0]()", 'i': "g=closure over local *T, writes global", 'j': "g=nested closures", 'k': "fns=append(fns[:1],fns[2:]...)", 'l': "peek=nil"},
 		Reset: reset, Op: op, Dump: dump,
